@@ -8,7 +8,7 @@ namespace Mesa.Layers
 
 /-- the states reachable by any history of ops on any grid of either implementation -/
 inductive Reach : State → Prop where
-  | init (impl : Impl) (dims : List Nat) (cap : Nat) : Reach (init impl dims cap)
+  | init (impl : Impl) (dims : List Nat) (cap : Option Nat) : Reach (init impl dims cap)
   | step {s : State} (op : Op) : Reach s → Reach (step s op).1
 
 theorem Reach.wf {s : State} (h : Reach s) : WF s := by
